@@ -16,6 +16,39 @@ CLAIMS = {
     note="Trusted: Lean kernel (axioms printed in evidence), harness AST→scope-tree dump and HIR walk, the generator's coverage of scope shapes. "
          "The typer's own scoping (LocalTypeEnv) is exercised only through the acceptance oracle.",
     technique="Lean 4 proof (structural induction over the nested AST) + differential correspondence with the Rust resolver"),
+ "C07": dict(
+    category="proof",
+    text="Lean theorems over a model of mono.rs (Model/Mono.lean: subst_ty, unify, SubstKey, spec_name_for via the C19 name model, "
+         "ensure_instance, mono_expr incl. ETraitCall resolution and generic functions used as values, the work-list loop, "
+         "TypeMono::collapse_type_apps/ensure_instance, rewrite_expr_types). Proved for every program, substitution and state: "
+         "unify_sound / unify_binds (a successful unify instantiates the template to the actual type, only extends the substitution and "
+         "binds every parameter of the template; all type constructors the Rust handles), subst_closed, worklist_bijection / "
+         "instances_unique (instance keys pairwise distinct, queued = keys, emitted ++ pending names = instance names in order at every "
+         "iteration; on return one emitted function per (function, SubstKey) and nothing pending), monoExpr_is_pure (the emitted expression "
+         "and the requests do not depend on the instance table) and instance_name_of_key, monoExpr_no_param / no_residue_partial (every "
+         "emitted function is the specialisation of a program function at a substitution with parameter-free values, and is parameter-free "
+         "whenever the substitution covers the function; call_covers: it does at a saturated call), mono_preserves_partial / "
+         "instance_behaves_as_generic / mono_preserves_run_partial (under Sem, for every fuel, the specialised program computes exactly what "
+         "the generic one computes - first-order fragment with direct calls of builtins, monomorphic and generic functions), "
+         "traitcall_commutes / traitcall_resolution (the statically resolved trait_impl#Tr#Ty#m is the function dynamic dispatch on the "
+         "runtime value selects), mono_terminates_partial / mono_terminates_of_closed_list (finite instance universe => the work list "
+         "empties within |universe| iterations) and polyrec_no_finite_universe (no such universe exists for polymorphic recursion). "
+         "Tied to the Rust by a correspondence run: the model on the REAL Core dump and genv type definitions must print the REAL Mono dump "
+         "(functions in order, signatures, bodies, mono_enums/mono_structs/mono_funcs), panic exactly where the real pass panics and run out "
+         "of fuel exactly where the real pass does not return (child process with watchdog). Independent oracles on the real outputs: real "
+         "Core vs real Mono under Sem, closedness (no TParam/TApp/TVar/ETraitCall) of the real Mono/Lift/ANF dumps, pairwise distinct "
+         "function names, no reference to an unspecialised generic function, no panic, termination watchdog.",
+    design_ref="§5 C07, §C07 — as built",
+    note="Proved: the theorems above about the Lean model. _partial: no_residue assumes the instance substitution covers the function (false "
+         "for a type parameter that occurs only in a body - known finding); mono_preserves is proved for the closure-free fragment with "
+         "direct calls and for phase 1 (specialisation), the link from `mono`'s own output to its hypotheses is shown by evaluation on an "
+         "excerpt, phase 2 (type instances) and closures/dyn/fn values are validated by the Sem oracle only; termination assumes a finite "
+         "instance universe. Validated only: model = Rust (differential), instance-name injectivity (owned by C19). Trusted: Lean kernel, "
+         "harness dumps (dump.rs, c07.rs), DecSyntax/EncSyntax, Sem for the behaviour oracle, the generator's coverage. "
+         "Fixed: unify lacked Vec/dyn, collapse_type_apps skipped Vec, generic functions used as values were not specialised. "
+         "Known findings: polymorphic recursion never terminates; a type parameter that occurs only in a function body survives mono.",
+    technique="Lean 4 proof (structural induction over the nested IR, work-list invariants, fuel-indexed simulation under Sem) + "
+              "differential correspondence with mono::mono + independent oracles on the real stage dumps"),
  "C10": dict(
     category="proof",
     text="Lean theorems over a model of the integer-literal pipeline and of the operator mapping, quantified over the tables regenerated from the "
